@@ -128,7 +128,32 @@ def run(chk, prop=PROP, props=PROPS, bias=''):
     for case, res in results:
         k = case['tree']['k']
         dist[k] = dist.get(k, 0) + 1
-    chk.cov['distribution'] = dict(root_kind=dist,
+    kinds = {}
+    depth = {}
+    for case, res in results:
+        for _r, outs in (res.get('outcomes') or {}).items():
+            for o in outs:
+                if o[0] != 'val':
+                    k = o[0]
+                elif o[1].startswith('E0:'):
+                    k = 'EnsembleError'
+                elif o[1].startswith('E1'):
+                    k = 'preprocess-error'
+                elif o[1].startswith('E2'):
+                    k = 'call-error'
+                elif o[1].startswith('E3'):
+                    k = 'batch-error'
+                elif o[1].startswith('E'):
+                    k = 'other-exception'
+                else:
+                    k = 'value'
+                kinds[k] = kinds.get(k, 0) + 1
+
+        def dep(t):
+            return 0 if t['k'] == 'w' else 1 + max(dep(c) for c in t['ch'])
+        d = dep(case['tree'])
+        depth[d] = depth.get(d, 0) + 1
+    chk.cov['distribution'] = dict(root_kind=dist, tree_depth=depth, outcome_kinds=kinds,
                                    id_reused_runs=sum(1 for _c, r in results if r.get('id_reused')),
                                    calls=sum(r.get('ncalls', 0) for _c, r in results),
                                    runs_with_batches_gt1=sum(1 for _c, r in results if any(b > 1 for b in r.get('batches', []))))
